@@ -63,6 +63,12 @@ class ScriptSock:
             self.script.pop(0)
             self.used += 1
             raise _s.timeout()
+        if ev == "e":
+            import errno
+
+            self.script.pop(0)
+            self.used += 1
+            raise OSError(errno.EAGAIN, "Resource temporarily unavailable")
         r, rest = ev[:n], ev[n:]
         if rest:
             self.script[0] = rest
@@ -85,7 +91,7 @@ def gen_read_case(rng):
     left, script = n, []
     while left > 0:
         if rng.random() < 0.35:
-            script.append("t")
+            script.append(rng.choice("te"))
         else:
             k = rng.randrange(1, left + 1)
             script.append(rng.randbytes(k))
@@ -93,7 +99,7 @@ def gen_read_case(rng):
         if rng.random() < 0.05:
             break                       # stream ends early: EOF
     if rng.random() < 0.3:
-        script.insert(0, "t")
+        script.insert(0, rng.choice("te"))
     return n, need, check, script
 
 
@@ -456,6 +462,57 @@ def send_wait_follows_clock(ctx, role):
         pair.close()
 
 
+def send_only_against_silent_peer(ctx, role, style):
+    """The subject only sends (its peer reads nothing and says nothing) and crosses its packet threshold; its socket
+    reports "nothing pending" as socket.timeout or as socket.error(EAGAIN).  Within a few idle polls of the reader the
+    run loop must have sent KEXINIT."""
+    from tests._loop import LoopSocket
+
+    gate, other = L.gate_socket(), LoopSocket()
+    gate.link(other)
+    socks = (other, gate) if role == "server" else (gate, other)
+    pair = L.Pair(role, "Transport", True, socks=socks)
+    sub, peer = pair.subject, pair.peer
+    case = {"role": role, "idle_read_reports": style}
+    try:
+        ch = pair.tc.open_session(timeout=30)
+        sch = pair.ts.accept(30)
+        if sch is None:
+            raise InfraError("accept timed out")
+        sub_ch = sch if role == "server" else ch
+        tap = L.Tap(sub)
+        if not pair.barrier():
+            raise InfraError("session not usable")
+        gate.idle_eagain = style == "eagain"
+        pk = sub.packetizer
+        mark = len(tap.tx)
+        pk.REKEY_PACKETS = pk._Packetizer__sent_packets + 5
+        for i in range(5):
+            sub_ch.sendall(b"send-only %d" % i)           # the fifth one reaches the threshold
+        pk.REKEY_PACKETS = 2 ** 29
+        if not pk.need_rekey() and not any(r[0] == 20 for r in tap.tx[mark:]):
+            ctx.fail("send-side-trigger-missed", case, "need_rekey() false after REKEY_PACKETS packets")
+            return
+        polls0 = gate.idle_polls
+        L.wait_until(lambda: any(r[0] == 20 for r in tap.tx[mark:]) or gate.idle_polls >= polls0 + 12
+                     or not sub.is_alive(), 60, "idle polls of the subject's reader")
+        case["idle_polls_waited"] = gate.idle_polls - polls0
+        if not any(r[0] == 20 for r in tap.tx[mark:]):
+            ctx.fail("rekey-request-never-served:idle-read-" + style, case,
+                     "threshold crossed by sending, %d idle polls later still no KEXINIT (need_rekey()=%s, in_kex=%s)"
+                     % (case["idle_polls_waited"], pk.need_rekey(), sub.in_kex))
+            return
+        gate.idle_eagain = False
+        L.wait_until(lambda: not sub.is_active() or (not sub.in_kex and sub.clear_to_send.is_set()
+                                                     and not pk.need_rekey()), 60, "the re-exchange to finish")
+        if not sub.is_active() or not peer.is_active():
+            ctx.fail("session-lost-across-rekey:idle-read-" + style, case, repr(sub.saved_exception))
+        ctx.sample(case, limit=16)
+    finally:
+        gate.idle_eagain = False
+        pair.close()
+
+
 def explicit_rekeys(ctx, rng):
     """re-exchanges asked for by either side in turn; the services check after each one"""
     tc, ts, taps = e2e_pair(None, None)
@@ -720,12 +777,14 @@ def run(ctx):
     rreqs, robs = [], []
     for _ in range(4000 if ctx.thorough else 1200):
         n, need, check, script = gen_read_case(rng)
-        want = b"".join(e for e in script if e != "t")
+        want = b"".join(e for e in script if e not in ("t", "e"))
         out, data = real_read_all(n, need, check, script)
-        toks = " ".join("t" if e == "t" else "d%d" % len(e) for e in script)
+        toks = " ".join(e if e in ("t", "e") else "d%d" % len(e) for e in script)
         rreqs.append("readall %d %d %d %s" % (need, check, n, toks))
         robs.append((out, {"n": n, "need": need, "check": check, "script": toks}))
-        ctx.case(("readall", n, need, check, toks), "t" in script)
+        ctx.case(("readall", n, need, check, toks), "t" in script or "e" in script)
+        if "e" in script:
+            ctx.dist("readall:with-eagain")
         ctx.dist("readall:" + out.split(" ")[0])
         if out.startswith("rekey") and out != "rekey 0":
             ctx.fail("bytes-lost-on-rekey-request:read_all", robs[-1][1], out)
@@ -762,6 +821,11 @@ def run(ctx):
                 ctx.disagree("compressor installs per key switch", dict(case, request=rq), [int(f[0]), int(f[1])], [io, ii])
     ctx.case(("explicit-rekeys",), True)
     explicit_rekeys(ctx, rng)
+    for role in ("server", "client"):
+        for style in ("timeout", "eagain"):
+            ctx.case(("send-only-silent-peer", role, style), True)
+            ctx.dist("send-only:idle-" + style)
+            send_only_against_silent_peer(ctx, role, style)
     for role in ("server", "client"):
         ctx.case(("send-wait-clock", role), True)
         ctx.dist("send-wait-clock:" + role)
